@@ -353,52 +353,52 @@ The default spherical problem γ = 7/5, k = 3, ω = 0 at v = 3/10 ∈ (v0, v2) =
 problem γ = 7/5, k = 3, ω = 19/7 (vacuum type) at v = 4/5 ∈ (v2, vv) = (35/48, 7/8); the omega3 problem
 γ = 7/5, k = 3, ω = 9/5 (standard type) at v = 1/2 ∈ (v0, v2) = (25/56, 25/48).  The constants are the
 ones `__init__` computes (checked against the real constructor by the tie `o_sedov2.tie_consts`). -/
-noncomputable def exStd : SedovFuncs.P :=
+noncomputable def odeExStd : SedovFuncs.P :=
   { a0 := 2/5, a1 := 173/380, a2 := -2/19, a3 := 15/19, a4 := 865/228, a5 := -10/3, a_val := 3, b_val := 6,
     c_val := 7/2, d_val := 15/7, e_val := 8/5, gamp1 := 12/5, geometry := 3, gpogm := 6, omega := 0, xg2 := 5 }
-noncomputable def exO2 : SedovFuncsO2.P :=
+noncomputable def odeExO2 : SedovFuncsO2.P :=
   { a0 := 7/8, a5 := -9/16, a_val := 48/35, b_val := 6, c_val := 8/5, e_val := 8/5, gamm1 := 2/5, gamma := 7/5,
     gamp1 := 12/5, geometry := 3, gpogm := 6, omega := 19/7, xg2 := 16/7 }
-noncomputable def exO3 : SedovFuncsO3.P :=
+noncomputable def odeExO3 : SedovFuncsO3.P :=
   { a0 := 5/8, a1 := 7/16, a2 := -5/16, a3 := 15/16, a_val := 48/25, b_val := 6, c_val := 56/25, e_val := 8/5,
     gamm1 := 2/5, gamma := 7/5, gamp1 := 12/5, geometry := 3, gpogm := 6, omega := 9/5, xg2 := 16/5 }
 
-example : StdConsts exStd (7/5) 3 0 ∧ StdInterior (7/5) 3 0 (3/10) ∧ K.denom2 (7/5) 3 0 ≠ 0 ∧ K.denom3 (7/5) 3 0 ≠ 0 := by
+example : StdConsts odeExStd (7/5) 3 0 ∧ StdInterior (7/5) 3 0 (3/10) ∧ K.denom2 (7/5) 3 0 ≠ 0 ∧ K.denom3 (7/5) 3 0 ≠ 0 := by
   refine ⟨⟨?_, ?_, ?_, ?_, ?_, ?_, ?_, ?_, ?_, ?_, ?_, ?_, ?_, ?_, ?_, ?_⟩,
     ⟨⟨by norm_num, by norm_num, by norm_num⟩, by norm_num [v2, vstar], by norm_num [v0], by norm_num [v2]⟩,
     by norm_num [K.denom2], by norm_num [K.denom3]⟩ <;>
-  norm_num [exStd, K.a0, K.a1, K.a2, K.a3, K.a4, K.a5, K.a_val, K.b_val, K.c_val, K.d_val, K.e_val]
+  norm_num [odeExStd, K.a0, K.a1, K.a2, K.a3, K.a4, K.a5, K.a_val, K.b_val, K.c_val, K.d_val, K.e_val]
 
-example : O2Consts exO2 (7/5) 3 (19/7) ∧ VacInterior (7/5) 3 (19/7) (4/5) ∧ K.denom2 (7/5) 3 (19/7) = 0 := by
+example : O2Consts odeExO2 (7/5) 3 (19/7) ∧ VacInterior (7/5) 3 (19/7) (4/5) ∧ K.denom2 (7/5) 3 (19/7) = 0 := by
   refine ⟨⟨?_, ?_, ?_, ?_, ?_, ?_, ?_, ?_, ?_, ?_, ?_, ?_, ?_⟩,
     ⟨⟨by norm_num, by norm_num, by norm_num⟩, by norm_num [v2, vstar], by norm_num [v2], by norm_num [vv]⟩,
     by norm_num [K.denom2]⟩ <;>
-  norm_num [exO2, K.a0, K.a5, K.a_val, K.b_val, K.c_val, K.e_val]
+  norm_num [odeExO2, K.a0, K.a5, K.a_val, K.b_val, K.c_val, K.e_val]
 
-example : O3Consts exO3 (7/5) 3 (9/5) ∧ StdInterior (7/5) 3 (9/5) (1/2) ∧ K.denom3 (7/5) 3 (9/5) = 0 := by
+example : O3Consts odeExO3 (7/5) 3 (9/5) ∧ StdInterior (7/5) 3 (9/5) (1/2) ∧ K.denom3 (7/5) 3 (9/5) = 0 := by
   refine ⟨⟨?_, ?_, ?_, ?_, ?_, ?_, ?_, ?_, ?_, ?_, ?_, ?_, ?_, ?_, ?_⟩,
     ⟨⟨by norm_num, by norm_num, by norm_num⟩, by norm_num [v2, vstar], by norm_num [v0], by norm_num [v2]⟩,
     by norm_num [K.denom3]⟩ <;>
-  norm_num [exO3, K.a0, K.a1, K.a2, K.a3, K.a_val, K.b_val, K.c_val, K.e_val]
+  norm_num [odeExO3, K.a0, K.a1, K.a2, K.a3, K.a_val, K.b_val, K.c_val, K.e_val]
 
 /-- similarity functions of λ with f ∘ λ = F, g ∘ λ = G, h ∘ λ = H near v₀ EXIST wherever dλ/dv ≠ 0
 (compose with the local inverse): the hypotheses `hf hg hh` are satisfiable at the default problem -/
 example : ∃ f g h : ℝ → ℝ,
-    (∀ᶠ v in 𝓝 (3/10 : ℝ), f (SedovFuncs.L1.l_fun exStd v) = SedovFuncs.L1.f_fun exStd v) ∧
-    (∀ᶠ v in 𝓝 (3/10 : ℝ), g (SedovFuncs.L1.l_fun exStd v) = SedovFuncs.L1.g_fun exStd v) ∧
-    (∀ᶠ v in 𝓝 (3/10 : ℝ), h (SedovFuncs.L1.l_fun exStd v) = SedovFuncs.L1.h_fun exStd v) := by
-  have hC : StdConsts exStd (7/5) 3 0 := by
+    (∀ᶠ v in 𝓝 (3/10 : ℝ), f (SedovFuncs.L1.l_fun odeExStd v) = SedovFuncs.L1.f_fun odeExStd v) ∧
+    (∀ᶠ v in 𝓝 (3/10 : ℝ), g (SedovFuncs.L1.l_fun odeExStd v) = SedovFuncs.L1.g_fun odeExStd v) ∧
+    (∀ᶠ v in 𝓝 (3/10 : ℝ), h (SedovFuncs.L1.l_fun odeExStd v) = SedovFuncs.L1.h_fun odeExStd v) := by
+  have hC : StdConsts odeExStd (7/5) 3 0 := by
     refine ⟨?_, ?_, ?_, ?_, ?_, ?_, ?_, ?_, ?_, ?_, ?_, ?_, ?_, ?_, ?_, ?_⟩ <;>
-    norm_num [exStd, K.a0, K.a1, K.a2, K.a3, K.a4, K.a5, K.a_val, K.b_val, K.c_val, K.d_val, K.e_val]
+    norm_num [odeExStd, K.a0, K.a1, K.a2, K.a3, K.a4, K.a5, K.a_val, K.b_val, K.c_val, K.d_val, K.e_val]
   have I : StdInterior (7/5) 3 0 (3/10) :=
     ⟨⟨by norm_num, by norm_num, by norm_num⟩, by norm_num [v2, vstar], by norm_num [v0], by norm_num [v2]⟩
   have B := Std.bases hC I.toSigns
-  have hs := Std.l_strict exStd (3/10) B
+  have hs := Std.l_strict odeExStd (3/10) B
   have hne := Std.l_dv_ne hC (Or.inl I) (by norm_num [K.denom2]) (by norm_num [K.denom3])
   have hli := hs.eventually_left_inverse hne
-  refine ⟨fun y => SedovFuncs.L1.f_fun exStd (hs.localInverse _ _ _ hne y),
-    fun y => SedovFuncs.L1.g_fun exStd (hs.localInverse _ _ _ hne y),
-    fun y => SedovFuncs.L1.h_fun exStd (hs.localInverse _ _ _ hne y), ?_, ?_, ?_⟩ <;>
+  refine ⟨fun y => SedovFuncs.L1.f_fun odeExStd (hs.localInverse _ _ _ hne y),
+    fun y => SedovFuncs.L1.g_fun odeExStd (hs.localInverse _ _ _ hne y),
+    fun y => SedovFuncs.L1.h_fun odeExStd (hs.localInverse _ _ _ hne y), ?_, ?_, ?_⟩ <;>
   · filter_upwards [hli] with v hv
     simp only [hv]
 
